@@ -51,7 +51,7 @@ func init() {
 		Level:     "exploration",
 		Technique: "runtime monitor: referential-integrity scan of the decoded log plus differential replay (truncated log vs retained copy of the untruncated log) after every truncation of generated head and agent histories",
 		LevelText: "Two of three cases drive a real tsdb.DB (block range 100-400, 32 KiB segments, three compressions, exemplar storage and metadata records on) through generated histories: appender batches (V1 and V2; floats, integer/float/custom-bucket histograms, stale markers, exemplars, metadata changes), series that stop and later reappear (garbage collection, duplicate series records), deletes incl. open-ended ranges, Compact, CompactHead on chosen ranges, CompactStaleHead, CompactSelectedSeries, rollbacks and restarts. At the hook tsdb.truncWAL.beforeCheckpoint the WAL directory is copied. After the operation (a) every sample, histogram, exemplar, metadata and tombstone entry of the truncated log must refer to a ref whose series record occurs earlier in replay order (checkpoint first); (b) the truncated log and the retained copy are each replayed by a fresh tsdb.Head (Init with the truncation time as minValidTime): the sample dumps (tombstones applied), the tombstone intervals clipped to the truncation time of series that have data, and the exemplars must be equal, and for every series record surviving in the truncated log the latest metadata entry must be the one of the full log. The third case does the same for agent.DB with VerifTruncate(mint) and both checkpoint implementations, the equivalence being taken on the decoded entries with t >= mint attributed to label sets. Held on the observed truncations only.",
-		LevelNote: "Reductions: latest metadata is compared on the decoded records (the head exposes no metadata reader); for DB.Compact the truncation time is not observable from outside, the head's MinTime read at the hook (never below the truncation time) is used as comparison bound, for CompactHead the exact bound is known; out-of-order ingestion is off (the WBL is not this property's log); tombstones are compared only for series that have samples at or after the bound in one of the replays; exemplars of series that a [MinInt64,MaxInt64] tombstone record evicts during replay are not compared (Head replay applies that eviction asynchronously to exemplar ingestion, the outcome is timing dependent for both logs); referential integrity is demanded for samples, histograms and exemplars at or after the bound only (entries below it, tombstones and metadata of collected series legitimately stay in the untouched segments); agent truncation times are generated non-monotonically but judged at the largest time used so far; appenders are not interleaved (C48 covers that). Trusted: wlog.Reader/record.Decoder and Head.Init as replay implementation (it is the code under test for replay, used identically on both logs).",
+		LevelNote: "Reductions: latest metadata is compared on the decoded records (the head exposes no metadata reader); for DB.Compact the truncation time is not observable from outside, the head's MinTime read at the hook (never below the truncation time) is used as comparison bound, for CompactHead the exact bound is known; out-of-order ingestion is off (the WBL is not this property's log); tombstones are compared only for series that have samples at or after the bound in one of the replays; exemplars of series that a [MinInt64,MaxInt64] tombstone record evicts during replay are not compared (Head replay applies that eviction asynchronously to exemplar ingestion, the outcome is timing dependent for both logs); referential integrity is demanded for samples, histograms and exemplars at or after the bound only (entries below it, tombstones and metadata of collected series legitimately stay in the untouched segments); truncation times may go down (agent: generated; head: after a restart) and are judged at the largest bound seen so far; appenders are not interleaved (C48 covers that). Trusted: wlog.Reader/record.Decoder and Head.Init as replay implementation (it is the code under test for replay, used identically on both logs).",
 		DesignRef: "DESIGN.md §5 C15",
 		Rule:      "case = one history of 30-90 steps (idx%3==2: agent, else head); non-trivial iff at least one truncation wrote a checkpoint that dropped at least one series record while the full log still replays at least one sample at or after the truncation time, and the comparison ran; distinct by the hash of configuration and step trace",
 		Cases: func(variant string, tier core.Tier) int {
@@ -257,6 +257,8 @@ type headHist struct {
 	scratch   string
 	exactMint *int64
 
+	maxBound     int64
+	hasBound     bool
 	truncChecked int
 	dropsSeen    int
 	nontrivial   bool
@@ -295,6 +297,14 @@ func (h *headHist) open() bool {
 	}
 	db.DisableCompactions()
 	h.db = db
+	if h.c.Verbose {
+		var bl []string
+		for _, b := range db.Blocks() {
+			m := b.Meta()
+			bl = append(bl, fmt.Sprintf("[%d,%d) stale=%v sel=%v", m.MinTime, m.MaxTime, m.Compaction.FromStaleSeries(), m.Compaction.FromSelectedSeries()))
+		}
+		h.c.Logf("opened: head [%d,%d] series=%d blocks=%v", db.Head().MinTime(), db.Head().MaxTime(), db.Head().NumSeries(), bl)
+	}
 	return true
 }
 
@@ -427,6 +437,14 @@ func (h *headHist) afterOp(what string) {
 		T = *exact
 		bound = "exact truncation time"
 	}
+	// A restart forgets the head's last WAL truncation time and may resurrect older samples, so a
+	// later truncation can use a smaller time than an earlier one; what the earlier one dropped is
+	// gone for good.  Everything is judged at the largest bound seen so far.
+	if h.hasBound && h.maxBound > T {
+		T = h.maxBound
+		bound = "largest truncation bound so far"
+	}
+	h.maxBound, h.hasBound = T, true
 	full := h.fullCopy
 	h.fullCopy = ""
 	defer os.RemoveAll(full)
@@ -890,6 +908,7 @@ func runAgent(c *core.Case) {
 	uid := 0
 	truncChecked, nontrivial := 0, false
 	maxMint := int64(0)
+	dupRefs := map[uint64]bool{}
 	known := map[string]bool{}
 	restarts := 0
 	steps := 30 + r.IntN(61)
@@ -1049,7 +1068,8 @@ func runAgent(c *core.Case) {
 			}
 			var dupOrph, otherOrph []orphan
 			for _, o := range orphans {
-				if isDup(o.ref) && restarts > 0 {
+				if (isDup(o.ref) && restarts > 0) || dupRefs[o.ref] {
+					dupRefs[o.ref] = true // stays an orphan in later checkpoints
 					dupOrph = append(dupOrph, o)
 				} else {
 					otherOrph = append(otherOrph, o)
